@@ -403,38 +403,9 @@ func (e *Engine) rollSourceObligations() {
 			return true
 		})
 	}
-	// sub-VMs share the parent's source: every function that creates a VM with NewVM() and runs it assigns RandSrc from a Context
-	for _, fi := range fis {
-		creates := false
-		assigns := false
-		runs := false
-		ast.Inspect(fi.Decl.Body, func(n ast.Node) bool {
-			switch u := n.(type) {
-			case *ast.CallExpr:
-				if id, ok := u.Fun.(*ast.Ident); ok && id.Name == "NewVM" {
-					creates = true
-				}
-				if se, ok := u.Fun.(*ast.SelectorExpr); ok && (se.Sel.Name == "Run" || se.Sel.Name == "evaluate" || se.Sel.Name == "RunAfterParsed") {
-					if id, ok := se.X.(*ast.Ident); ok && id.Name == "vm" {
-						runs = true
-					}
-				}
-			case *ast.AssignStmt:
-				for i, l := range u.Lhs {
-					if se, ok := l.(*ast.SelectorExpr); ok && se.Sel.Name == "RandSrc" && i < len(u.Rhs) {
-						if rs, ok := u.Rhs[i].(*ast.SelectorExpr); ok && rs.Sel.Name == "RandSrc" {
-							assigns = true
-						}
-					}
-				}
-			}
-			return true
-		})
-		if creates && runs {
-			e.frameObl("frame:"+fi.Key+"/subvm-inherits-source", []string{"C06"}, assigns, e.posStr(fi.Decl.Pos()),
-				fi.Key+" gives the sub-VM it runs the parent's RandSrc", "no assignment vm.RandSrc = <ctx>.RandSrc")
-		}
-	}
+	// sub-VMs share the parent's source and configuration: asserted semantically where FuncInvokeRaw / ComputedExecute run
+	// their sub-VM (specInherits in the contracts file); the former syntactic obligation subvm-inherits-source was
+	// dropped because it alarmed on a correct extract-helper refactor.
 }
 
 // configWriteObligations: assignments to (fields of) a Context's Config.
@@ -1053,6 +1024,7 @@ func (e *Engine) addPEGObligations() {
 	e.addPEGTyping(pa)
 	e.languageObligations()
 	e.stickyFlagObligations()
+	e.positionWriterObligations()
 	e.nativeTableObligations()
 }
 
@@ -1178,6 +1150,77 @@ func (e *Engine) languageObligations() {
 	}
 	e.frameObl("frame:actions/addErr-language", []string{"C19"}, len(mono) == 0, "",
 		"parse errors raised by grammar actions are available in the configured language", strings.Join(mono, "; "))
+}
+
+// positionWriterObligations (C19): the parser's position (p.pt: offset, line, col, current rune and width) is advanced
+// by (*parser).read — whose contract pins down how line and col follow the text — and rewound by (*parser).restore
+// from a savepoint that read produced.  read's contract speaks for the whole parser only if nobody else writes the
+// position: every other assignment to p.pt or one of its fields is reported.  (Sub-VM set-up in types.go stores the
+// end offset of a cached body's text; only `.pt.offset` is accepted there.)
+func (e *Engine) positionWriterObligations() {
+	info := e.P.Info
+	var bad []string
+	sites := 0
+	isParserPt := func(x ast.Expr) (field string, ok bool) {
+		// x is <p>.pt or <p>.pt.<f>
+		se, ok2 := x.(*ast.SelectorExpr)
+		if !ok2 {
+			return "", false
+		}
+		if se.Sel.Name == "pt" {
+			if t := info.TypeOf(se.X); t != nil && strings.HasSuffix(strings.TrimPrefix(e.typeStr(t), "*"), "parser") {
+				return "", true
+			}
+			return "", false
+		}
+		if inner, ok3 := se.X.(*ast.SelectorExpr); ok3 && inner.Sel.Name == "pt" {
+			if t := info.TypeOf(inner.X); t != nil && strings.HasSuffix(strings.TrimPrefix(e.typeStr(t), "*"), "parser") {
+				return se.Sel.Name, true
+			}
+		}
+		return "", false
+	}
+	for _, key := range sortedKeys(e.P.Funcs) {
+		fi := e.P.Funcs[key]
+		if fi.Decl == nil || fi.Decl.Body == nil || fi.File == ContractsFileName || strings.HasSuffix(fi.File, "_test.go") {
+			continue
+		}
+		allowedAll := key == "(*parser).read" || key == "(*parser).restore"
+		ast.Inspect(fi.Decl.Body, func(n ast.Node) bool {
+			note := func(lhs ast.Expr) {
+				f, ok := isParserPt(lhs)
+				if !ok {
+					return
+				}
+				sites++
+				if allowedAll {
+					return
+				}
+				if f == "offset" && fi.File == "types.go" {
+					return
+				}
+				what := "p.pt"
+				if f != "" {
+					what += "." + f
+				}
+				bad = append(bad, key+" writes "+what+" at "+e.posStr(lhs.Pos()))
+			}
+			switch u := n.(type) {
+			case *ast.AssignStmt:
+				for _, l := range u.Lhs {
+					note(l)
+				}
+			case *ast.IncDecStmt:
+				note(u.X)
+			}
+			return true
+		})
+	}
+	if sites == 0 {
+		bad = append(bad, "no assignment to parser.pt found at all (read / restore renamed?)")
+	}
+	e.frameObl("frame:parser.pt/written-only-by-read-restore", []string{"C19"}, len(bad) == 0, "",
+		"the parser position p.pt is assigned only by (*parser).read and (*parser).restore, whose contracts fix how offset, line and column follow the text", strings.Join(bad, "; "))
 }
 
 // stickyFlagObligations (C07): ParserData.codeOverflow records that instructions were dropped; Parse turns it into an
